@@ -1227,8 +1227,12 @@ def _deeper(k, f):
 
 
 def deep_chains(w, thorough):
-    chain_lengths = [20, 100, 150, 250, 600, 1200] if thorough else [20, 150, 300, 1200]
     for kind in ("macro", "forward", "alias", "slice"):
+        # alias chains cost time quadratic in their length
+        if kind in ("macro", "forward"):
+            chain_lengths = [20, 100, 150, 250, 600, 1200] if thorough else [20, 150, 400]
+        else:
+            chain_lengths = [20, 100, 200, 400, 1200] if thorough else [20, 100]
         for where in (("top", "loop", "par", "sub") if thorough else (("top", "sub") if kind in ("macro", "forward") else ("top",))):
             for nlen in chain_lengths:
                 base = {"gs": True, "chain": kind, "length": nlen, "where": where}
@@ -1237,14 +1241,15 @@ def deep_chains(w, thorough):
                 check_call(w, dict(base, kind="run"), stream="deep_chain:run")
                 check_call(w, dict(base, kind="output_list", output=[0]), stream="deep_chain:output_list")
     # ... and just below the length at which each entry point starts to refuse, at several caller stack depths
-    for kind in ("macro", "forward", "alias"):
-        for probe in ({"kind": "parse", "flags": {"expand_macro": True}}, {"kind": "parse", "flags": {"expand_let_map": True}},
-                      {"kind": "run"}, {"kind": "output_list", "output": [0]}):
-            for extra in range(3 if not thorough else 7):
+    for kind in (("macro", "forward", "alias") if thorough else ("macro", "forward")):
+        probes = ({"kind": "parse", "flags": {"expand_macro": True}}, {"kind": "parse", "flags": {"expand_let_map": True}},
+                  {"kind": "run"}, {"kind": "output_list", "output": [0]})
+        for probe in (probes if thorough and kind != "alias" else (probes[0], probes[2])):
+            for extra in range(2 if (not thorough or kind == "alias") else 7):
                 def ok(nlen):
                     out = _deeper(extra, lambda: canon_call(dict(probe, gs=True, chain=kind, length=nlen, where="top"))[0])
                     return "ok" in out
-                lo, hi = 10, 1500
+                lo, hi = 10, (1500 if thorough else 400)
                 if not ok(lo) or ok(hi):
                     continue
                 while hi - lo > 1:
